@@ -15,8 +15,7 @@ fn limits_for(ctx: &mut Ctx, src: &str) {
         let has_limit = p.errors.iter().any(|e| e.0 == 'L');
         if has_limit != (n_items > n) { ctx.fail("token-limit-iff", &format!("tl={n} {src}"), &format!("limit error={has_limit}, unlimited stream has {n_items} items")); }
         if !src.starts_with(&p.text) {
-            let ty_err = p.msgs.iter().any(|(_, m)| m == "expected a type" || m == "expected item type");
-            ctx.fail(if ty_err { "cst-drops-token-in-type-position" } else { "limited-tree-not-prefix" }, &format!("tl={n} {src}"), &format!("tree text {:?}", p.text));
+            ctx.fail(if p.loss == Loss::TypePositionDropOnly { "cst-drops-token-in-type-position" } else { "limited-tree-not-prefix" }, &format!("tl={n} {src}"), &format!("tree text {:?}", p.text));
         }
         if let Some(pos) = p.errors.iter().position(|e| e.0 == 'L') {
             if pos + 1 != p.errors.len() { ctx.fail("error-after-token-limit", &format!("tl={n} {src}"), &format!("{:?}", p.errors)); }
